@@ -101,3 +101,51 @@ GROUPS = [
     dict(name="C01/long-non-ascii-tokens", clause="same, for long string / char / byte / identifier / number / comment / property tokens holding multi-byte characters at every byte offset (diagnostics echo token text)",
          bound="8 token shapes x 3 scripts x byte offsets 0..69 (quick: every third offset plus 31-33, 63-65)", gen=gen_long_tokens),
 ]
+
+
+# ---- grammar-derived programs: control-flow keywords at every structural position ------------------------------------
+def gen_structured(tier, rng):
+    """break / continue (plain and labelled, to existing and missing labels) / return / function literals / filters / match arms placed at
+    random depths of loops, blocks, functions and conditions - the positions where the compiler keeps bookkeeping (loop stack,
+    scope stack, pending jumps, last-Pop removal). Every such text either compiles (and runs) or gets a compile diagnostic."""
+    n = 400 if tier == "quick" else 12000
+    labels = ["a", "b", "zz"]
+
+    def stmt(d, in_loops, in_fn, k):
+        r = rng.random()
+        pad = ["puts(%d);" % rng.randint(0, 9) for _ in range(rng.randint(0, 4))]
+        if d <= 0 or r < 0.22:
+            c = rng.choice(["break;", "continue;", "break %s;" % rng.choice(labels), "continue %s;" % rng.choice(labels), "return;", "return %d;" % k, "puts(%d);" % k, "%d" % k, "let v%d = %d;" % (k, k),
+                            "v%d = 1;" % rng.randint(0, 3), "1 && 2 || 3;", "[1, 2][0];", "if 1 { 2 }", "if 0 { } else { }", "{ }", ";"])
+            return " ".join(pad[:2]) + " " + c
+        if r < 0.36:
+            lab = rng.choice(["", "", "%s: " % rng.choice(labels)])
+            return "%sloop { %s %s break; }" % (lab, block(d - 1, in_loops + 1, in_fn, k), " ".join(pad))
+        if r < 0.50:
+            lab = rng.choice(["", "", "%s: " % rng.choice(labels)])
+            cond = rng.choice(["false", "0", "1 > 2", "if 0 { break; 1 } else { 0 }", "fn() { break; }", "n%d < 1" % k])
+            return "%swhile %s { %s }" % (lab, cond, block(d - 1, in_loops + 1, in_fn, k))
+        if r < 0.64:
+            form = rng.choice(["let f%d = fn(x) { %s };", "fn g%d(x, y) { %s }", "fn(x) { %s }(1);", "let h%d = fn() { fn() { %s } };"])
+            body = block(d - 1, 0, True, k)
+            return (form % ((k, body) if "%d" in form else (body,)))
+        if r < 0.76:
+            return "if %s { %s } else if %s { %s } else { %s }" % (rng.choice(["1", "0", "x", "true && false"]), block(d - 1, in_loops, in_fn, k), rng.choice(["0", "1"]), block(d - 1, in_loops, in_fn, k), block(d - 1, in_loops, in_fn, k))
+        if r < 0.86:
+            return "let m%d = match %d { 1 | 2 => { %s } 3..=5 => { %s } _ => { %s } };" % (k, rng.randint(0, 6), block(d - 1, in_loops, in_fn, k), block(d - 1, in_loops, in_fn, k), block(d - 1, in_loops, in_fn, k))
+        if r < 0.93:
+            return "{ %s }" % block(d - 1, in_loops, in_fn, k)
+        return "@ %s { %s }" % (rng.choice(["true", "NP > 0", "end", "1 && 0"]), block(d - 1, in_loops, in_fn, k))
+
+    def block(d, in_loops, in_fn, k):
+        return " ".join(stmt(d, in_loops, in_fn, k * 7 + j) for j in range(rng.randint(0, 3)))
+
+    for c in range(n):
+        cid = "struct/%d" % c
+        body = " ".join(stmt(rng.choice([2, 3, 3, 4]), 0, False, j + 1) for j in range(rng.randint(1, 3)))
+        text = 'let x = 0; let n1 = 0;\n%s\n' % body
+        yield mk(cid, text, stdin=PC, flags=rng.choice([None, None, ["-s"]]))
+
+
+GROUPS.append(dict(name="C01/control-flow-placement", clause="same, for grammar-derived programs that place break / continue (plain, labelled, unknown label), return, function literals, filters, match arms and blocks at every depth of loops, functions and conditions",
+                   bound="400/12000 seeded programs, nesting depth <= 4, 0-3 statements per block", gen=gen_structured))
